@@ -10,6 +10,14 @@ GLOBAL_ASSUMPTIONS = [
     "the harness really exercises /repo's working tree (go.mod replace directive) and encodes what it observed faithfully",
 ]
 
+import re as _re
+
+def _rule_only(s):
+    """projection for C04/C12: which rule answered (or none); names and labels are C11's business"""
+    return _re.sub(r'r(\d+|\?\S*) \S+ \[[^\]]*\]', r'r\1', s)
+
+_TV_NOTE = "no property theorems yet for this id (proofs in progress): claimed as translation validation — the implementation is compared op by op with the executable Lean model AND the model with the executable Lean specification on the same ops"
+
 PROPS = {
     'C15': {
         'modules': ['SE.Props.C15'],
@@ -17,5 +25,54 @@ PROPS = {
         'level': 'proof',
         'trusted_base': ["Go's UTF-8 decoding (`range` over a string, utf8.DecodeRuneInString) as modelled in SE/Model/Utf8.lean — tied exhaustively on all 1- and 2-byte strings and on the symbol-class strings"],
         'assumptions': [],
+    },
+    'C04': {
+        'modules': [],
+        'streams': [{'component': 'mapper_c04', 'project': _rule_only, 'note_kinds': {'rule'}}],
+        'level': 'translation_validation',
+        'trusted_base': ["Go regexp (RE2) semantics: match results of regex rules are supplied by the harness from the real regexp package (oracle `rx`)", "yaml.v2 decodes the rendered configuration to the intended fields"],
+        'assumptions': [_TV_NOTE],
+    },
+    'C12': {
+        'modules': [],
+        'streams': [{'component': 'mapper_c12', 'project': _rule_only, 'note_kinds': {'rule'}}],
+        'level': 'translation_validation',
+        'trusted_base': ["yaml.v2 decodes the rendered configuration to the intended fields"],
+        'assumptions': [_TV_NOTE],
+    },
+    'C11': {
+        'modules': [],
+        'streams': [{'component': 'mapper_c11', 'note_kinds': {'tmpl'}}],
+        'level': 'translation_validation',
+        'trusted_base': ["fmt.Sprintf is modelled for %s and %% only; results of templates that reach other % sequences are not compared (model answers `?`)", "regexp.Expand template syntax modelled from the Go source", "Go regexp semantics via the rx oracle"],
+        'assumptions': [_TV_NOTE],
+    },
+    'C13': {
+        'modules': [],
+        'streams': [{'component': 'mapper_c13', 'note_kinds': {'fresh'}}],
+        'level': 'translation_validation',
+        'trusted_base': ["groupcache lru.Cache (third party) modelled from its source", "Go map iteration order of the random-replacement eviction = oracle argument"],
+        'assumptions': [_TV_NOTE],
+    },
+    'C14': {
+        'modules': [],
+        'streams': [{'component': 'mapper_c14', 'note_kinds': {'fresh'}}],
+        'level': 'translation_validation',
+        'trusted_base': ["sync.RWMutex semantics (GetMapping and the swap are atomic steps)", "yaml.v2"],
+        'assumptions': [_TV_NOTE],
+    },
+    'C09': {
+        'modules': [],
+        'streams': [{'component': 'parse', 'info_comparable': True}],
+        'level': 'translation_validation',
+        'trusted_base': ["strconv.ParseFloat results are shipped by the harness (oracle `pf`)"],
+        'assumptions': [_TV_NOTE],
+    },
+    'C10': {
+        'modules': [],
+        'streams': [{'component': 'parse', 'seed_off': 1000, 'info_comparable': True}],
+        'level': 'translation_validation',
+        'trusted_base': ["strconv.ParseFloat results are shipped by the harness (oracle `pf`)"],
+        'assumptions': [_TV_NOTE],
     },
 }
